@@ -154,7 +154,7 @@ def mk_tamper(where, response, pi):
         SEQS = SEQS5
 
         def h(si: int, pos: int, val: int) -> None:
-            assert 0 <= si < len(SEQS) and 0 <= pos < 20 and 0 <= val < 8
+            assert 0 <= si < len(SEQS) and 0 <= pos < 20 and 0 <= val < 11
             osckit.oscstubs.ORACLE.reset()
             a, b = osckit.pair(IDS[ii][0], IDS[ii][1], CTXS[ci])
             seq = pick(SEQS, si)
@@ -182,7 +182,7 @@ def mk_tamper(where, response, pi):
             else:
                 if pos >= len(data):
                     return
-                nv = [data[pos] ^ 1, data[pos] ^ 0x80, 0, 255, 4, data[pos] ^ 0x20, data[pos] ^ 0x10, data[pos] ^ 0x08][val]
+                nv = [data[pos] ^ 1, data[pos] ^ 0x80, 0, 255, 4, data[pos] ^ 0x20, data[pos] ^ 0x10, data[pos] ^ 0x08, data[pos] ^ 2, data[pos] ^ 4, data[pos] ^ 0x40][val]
                 if nv == data[pos]:
                     return
                 new = data[:pos] + bytes([nv]) + data[pos + 1:]
@@ -218,7 +218,7 @@ def mk_kid_semantic(reach):
     from aiocoap.numbers.codes import GET
 
     def h(pi: int, si: int, op: int) -> None:
-        assert 0 <= pi < len(PROFILES) and 0 <= si < len(SEQS5) and 0 <= op < 8
+        assert 0 <= pi < len(PROFILES) and 0 <= si < len(SEQS5) and 0 <= op < 11
         ii, ci = pick(PROFILES, pi)
         osckit.oscstubs.ORACLE.reset()
         a, b = osckit.pair(IDS[ii][0], IDS[ii][1], CTXS[ci])
@@ -250,10 +250,16 @@ def mk_kid_semantic(reach):
             npiv = b"\x00" + piv if len(piv) < 5 else piv[1:]       # same number, other length / other number
         elif op == 6:
             npiv = (int.from_bytes(piv, "big") ^ 1).to_bytes(len(piv), "big")
-        else:
+        elif op == 7:
             if ctx is None or ctx == b"":
                 return
             nctx = b""
+        elif op == 8:
+            npiv = b"\x00" * (6 - len(piv)) + piv         # reserved length 6 (RFC 8613 6.1), same number
+        elif op == 9:
+            npiv = b"\x00" * (7 - len(piv)) + piv         # reserved length 7
+        else:
+            npiv = b""                                    # partial IV removed from a request
         first = len(npiv) | 8 | (16 if nctx is not None else 0)
         m.opt.oscore = bytes([first]) + npiv + (bytes([len(nctx)]) + nctx if nctx is not None else b"") + nkid
         ok = False
@@ -533,10 +539,10 @@ def obligations(tier):
                 obs.append(Obligation("tamper-%s-%s-profile%d" % (where, "response" if response else "request", pi), mk_tamper(where, response, pi),
                                       280 if q else 1500, functions=F, stubs=ST,
                                       symbolic={"sequence number": "index/5 (one per partial-IV length)", "position": "0..19",
-                                                "replacement": "^1 / ^0x80 / 0x00 / 0xff / truncate here / ^0x20 / ^0x10 / ^0x08"},
+                                                "replacement": "every single-bit flip ^1 ^2 ^4 ^8 ^0x10 ^0x20 ^0x40 ^0x80 / 0x00 / 0xff / truncate here"},
                                       concrete={"ids": [x.hex() for x in IDS[PROFILES[pi][0]]], "id context": repr(CTXS[PROFILES[pi][1]]), "message": "response" if response else "request"}))
     obs.append(Obligation("tamper-fields", mk_kid_semantic, 280 if q else 1200, functions=F, stubs=ST,
-                          symbolic={"ids x context profile": "index/6", "sequence number": "index/5", "manipulation": "index/8 (kid emptied/extended, context added/extended/shortened/emptied, partial IV re-coded/changed)"}))
+                          symbolic={"ids x context profile": "index/6", "sequence number": "index/5", "manipulation": "index/11 (kid emptied/extended, context added/extended/shortened/emptied, partial IV re-coded/changed/of reserved length 6 or 7/removed)"}))
     obs.append(Obligation("foreign-keys", mk_foreign_keys, 200 if q else 900, functions=F, stubs=ST,
                           symbolic={"ids": "index/5", "id context": "index/4", "other context differs in": "secret / salt / ID context"}))
     obs.append(Obligation("roundtrip-proxy-uri", mk_proxy_uri, 120, functions=F, stubs=ST, expect="violated", finding="D12", twin=False,
